@@ -97,6 +97,8 @@ type coreH struct {
 	// blockedErr[i]: the bank's own refusal of blocked[i] (obtained from the bank at fixture start):
 	// the reference value the `blockedRecipient` result class is recognised by
 	blockedErr []error
+	// extra: "nobody" addresses (Actor(1000+i)) that were named in an op, by bech32 string -> i
+	extra map[string]int
 }
 
 // coreBlockedBase: index of the first blocked module account in the model's address space
@@ -220,7 +222,33 @@ func (h *coreH) onApp(f *Fix) *coreH {
 	return &c
 }
 
+// ownerName: the token of a rollapp owner string (decoded: the spelling's case does not matter)
+func (h *coreH) ownerName(owner string) string {
+	a, err := sdk.AccAddressFromBech32(owner)
+	if err != nil {
+		return "?" + owner
+	}
+	if a.Equals(h.owner) {
+		return "o0"
+	}
+	for i, b := range h.blocked {
+		if a.Equals(b) {
+			return "m" + strconv.Itoa(i)
+		}
+	}
+	if i, ok := h.actorIdx[a.String()]; ok {
+		return coreActorName(i)
+	}
+	if i, ok := h.extra[a.String()]; ok {
+		return coreActorName(i)
+	}
+	return "?" + owner
+}
+
 func (h *coreH) actor(tok string) (int, sdk.AccAddress) {
+	if strings.HasPrefix(tok, "o") { // the creator (first owner) of every rollapp
+		return -3, h.owner
+	}
 	if strings.HasPrefix(tok, "m") { // blocked module account (only meaningful as a recipient)
 		if i, err := strconv.Atoi(tok[1:]); err == nil && i >= 0 && i < len(h.blocked) {
 			return coreBlockedBase + i, h.blocked[i]
@@ -228,6 +256,10 @@ func (h *coreH) actor(tok string) (int, sdk.AccAddress) {
 	}
 	i, _ := strconv.Atoi(strings.TrimPrefix(tok, "a"))
 	if i < 0 || i >= len(h.actors) {
+		if h.extra == nil {
+			h.extra = map[string]int{}
+		}
+		h.extra[Actor(1000+i).String()] = i
 		return i, Actor(1000 + i) // unknown actor: a valid address that is nobody
 	}
 	return i, h.actors[i]
@@ -482,6 +514,18 @@ func (h *coreH) exec(line string) string {
 		}
 		_, err := h.f.Deliver(&msg)
 		return h.msgClass(err)
+	case "xferowner":
+		// x/rollapp MsgTransferOwnership signed by `by`; uc=1: the new owner's bech32 string in upper case
+		// (valid bech32, the same address)
+		_, id := h.rollapp(f[1])
+		_, by := h.actor(m["by"])
+		_, to := h.actor(m["to"])
+		newOwner := to.String()
+		if m["uc"] == "1" {
+			newOwner = strings.ToUpper(newOwner)
+		}
+		_, err := h.f.Deliver(&rollapptypes.MsgTransferOwnership{CurrentOwner: by.String(), NewOwner: newOwner, RollappId: id})
+		return okErr(err)
 	case "punish":
 		// the standalone governance PunishSequencerProposal, delivered the way an executed proposal
 		// delivers it: x/gov's MsgExecLegacyContent -> legacy router -> x/sequencer's proposal handler
@@ -602,6 +646,8 @@ type coreRa struct {
 	LastFin, Latest uint64
 	EvH, CdStart    int64
 	Prop, Succ      int // -1 = sentinel
+	Owner           string // token: o0 / a<i> / m<i>
+	OwnerBlocked    bool   // the bank refuses the stored owner as a recipient (monitors only)
 	States          []coreState
 	ByHeight        map[uint64]uint64
 	Probes          []uint64
@@ -661,6 +707,10 @@ func (h *coreH) snapshot() *coreSnap {
 			continue
 		}
 		r.Exists, r.Launched, r.Tph = true, ra.Launched, ra.GenesisState.TransferProofHeight
+		r.Owner = h.ownerName(ra.Owner)
+		if oa, err := sdk.AccAddressFromBech32(ra.Owner); err != nil || app.BankKeeper.BlockedAddr(oa) {
+			r.OwnerBlocked = true
+		}
 		for _, rv := range ra.Revisions {
 			r.Revs = append(r.Revs, [2]uint64{rv.Number, rv.StartHeight})
 		}
@@ -815,7 +865,7 @@ func (s *coreSnap) render(res string) string {
 			}
 			fmt.Fprintf(&sb, "%d@%d", rv[0], rv[1])
 		}
-		fmt.Fprintf(&sb, " n=%d fin=%d ev=%d cd=%d prop=%s succ=%s st=", r.Latest, r.LastFin, r.EvH, r.CdStart, coreActorName(r.Prop), coreActorName(r.Succ))
+		fmt.Fprintf(&sb, " n=%d fin=%d ev=%d cd=%d prop=%s succ=%s own=%s st=", r.Latest, r.LastFin, r.EvH, r.CdStart, coreActorName(r.Prop), coreActorName(r.Succ), r.Owner)
 		for i, st := range r.States {
 			if i > 0 {
 				sb.WriteByte(';')
